@@ -30,7 +30,7 @@ REQUIRED = {'quick': {'objects_with_facts': 40, 'refusals_with_diagnostics': 10,
 
 
 def cases(tier, seed):
-    out = [{'prop': ID, 'seed': seed, 'idx': i, 'large': i % (250 if tier == 'quick' else 90) == 5} for i in range(N[tier])]
+    out = [{'prop': ID, 'seed': seed, 'idx': i, 'large': i % (250 if tier == 'quick' else 200) == 5} for i in range(N[tier])]
     out.sort(key=lambda c: not c['large'])
     return out
 
